@@ -27,6 +27,8 @@ def jobs(pid, tier, seed):
     out = []
     for name, params in scenarios.directed_for(pid, tier):
         out.append({"kind": "directed", "name": name, "params": params})
+    if pid == "C15":
+        out.append({"kind": "classifier"})
     n = N_RANDOM[tier]
     for i in range(n):
         out.append({"kind": "random", "seed": seed * 1000003 + i})
@@ -42,7 +44,63 @@ def configs_for(pid):
     return CONFIGS
 
 
+MOODS8 = ["<missing>", None, "", "happy", "lonely", "scary", "errory", "unknown"]
+
+
+def run_classifier_product(acc):
+    """C15, exhaustive part: the real _summarize_mailbox / _summarize_nameplate_usage on the full product
+    of 1-4 sides x 8 moods per side x pruned x blur against the independent classifier."""
+    import itertools
+    from ..engine import load_server_modules
+    from ..facts_mbox import classify_mailbox, classify_nameplate
+    server_mod, _, _, database = load_server_modules()
+    for blur in (None, 60):
+        db = database.create_channel_db(":memory:")
+        srv = server_mod.make_server(db, blur_usage=blur)
+        app = srv.get_app("a")
+        for nsides in (1, 2, 3, 4):
+            times = [1000.125 + 7.5 * i for i in range(nsides)]
+            for moods in itertools.product(MOODS8, repeat=nsides):
+                for pruned in (False, True):
+                    rows = []
+                    for i, m in enumerate(moods):
+                        r = {"side": "s%d" % i, "added": times[nsides - 1 - i], "opened": False}
+                        if m != "<missing>":
+                            r["mood"] = m
+                        rows.append(r)
+                    when = 2000.5
+                    u = app._summarize_mailbox(rows, when, pruned)
+                    first = min(times)
+                    exp_started = blur * (first // blur) if blur else first
+                    exp = (exp_started, (sorted(times)[1] - first) if nsides > 1 else None, when - first,
+                           classify_mailbox(nsides, [m for m in moods if m not in ("<missing>", None, "")], pruned))
+                    got = (u.started, u.waiting_time, u.total_time, u.result)
+                    acc.ev["c15_classifier_case"] += 1
+                    if got != exp:
+                        acc.add_violation({"property": "C15", "kind": "classifier", "case": "classifier",
+                                           "violation": {"props": ["C15"], "kind": "mailbox classification/timing differs from the documented rule",
+                                                         "detail": {"moods": list(moods), "pruned": pruned, "blur": blur, "got": got, "expected": exp}}})
+                        return
+            for pruned in (False, True):
+                rows = [{"side": "s%d" % i, "added": times[i], "claimed": bool(i % 2)} for i in range(nsides)]
+                u = app._summarize_nameplate_usage(rows, 2000.5, pruned)
+                first = min(times)
+                exp = (blur * (first // blur) if blur else first, (sorted(times)[1] - first) if nsides > 1 else None,
+                       2000.5 - first, classify_nameplate(nsides, pruned))
+                got = (u.started, u.waiting_time, u.total_time, u.result)
+                acc.ev["c15_classifier_case"] += 1
+                if got != exp:
+                    acc.add_violation({"property": "C15", "kind": "classifier", "case": "classifier",
+                                       "violation": {"props": ["C15"], "kind": "nameplate classification/timing differs from the documented rule",
+                                                     "detail": {"nsides": nsides, "pruned": pruned, "blur": blur, "got": got, "expected": exp}}})
+                    return
+    acc.cases += 1
+    acc.distinct.add("classifier-product")
+
+
 def run_job(pid, job, acc):
+    if job["kind"] == "classifier":
+        return run_classifier_product(acc)
     p = PROFILES[pid]
     if job["kind"] == "random":
         s = job["seed"]
@@ -56,4 +114,8 @@ def run_job(pid, job, acc):
 
 
 def replay(pid, rep):
+    if rep.get("kind") == "classifier":
+        acc = Acc(pid)
+        run_classifier_product(acc)
+        return acc
     return replay_history(rep, pid)
